@@ -1,5 +1,6 @@
 import Spine.DiscoveryFull
 import Spine.DiscoveryCascade
+import Spine.DiscoveryWritten
 /-! C06 over histories: any sequence of replies, partial and full notifications, by induction over the list of
     messages; and the cascade over the world (registries, client-side bookkeeping, the other peers' trees). -/
 namespace Spine.Disc
@@ -118,5 +119,48 @@ theorem step_own_tree (c : Cfg) (w : World) (p : Nat) (k : Kind) (m : Msg) :
   simp only [World.step]
   rw [cascade_trees]
   simp [setTree]
+
+/-! ### the member as written over histories: the region where it agrees with the specification -/
+
+/-- a message on which the handler as written is right (address level): a reply, or a non-empty partial notification
+    whose entries share one state change. Full notifications are excluded: their diff is in general a mixed
+    notification. -/
+def Ann.Uniform (x : Ann) : Prop :=
+  x.kind ≠ .full ∧ (x.kind = .part → x.msg.ents ≠ [] ∧
+    ((∀ ei ∈ x.msg.ents, ei.chg = .added) ∨ (∀ ei ∈ x.msg.ents, ei.chg = .removed)))
+
+/-- SPEC of one announcement, known / unknown only -/
+def specKnown (a : List Nat) (b : Bool) (x : Ann) : Bool :=
+  match x.kind with
+  | .reply => b || decide (a ∈ x.msg.ents.map (·.addr))
+  | .part => x.msg.ents.foldl (applyTo a) b
+  | .full => decide (a ∈ x.msg.ents.map (·.addr))
+
+theorem written_step_uniform (x : Ann) (hu : x.Uniform) (t : Tree) (a : List Nat) :
+    decide (a ∈ addrs (treeStep {} x.kind x.msg t).1) = specKnown a (decide (a ∈ addrs t)) x := by
+  unfold treeStep specKnown
+  cases hk : x.kind with
+  | reply =>
+    simp only [reply]
+    by_cases h1 : a ∈ addrs t <;> by_cases h2 : a ∈ x.msg.ents.map (·.addr) <;> simp [mem_addAll, h1, h2]
+  | part =>
+    obtain ⟨hne, hsame⟩ := hu.2 hk
+    simp only [if_true]
+    cases hsame with
+    | inl h => exact written_all_added x.msg t a hne h
+    | inr h => exact written_all_removed x.msg t a hne h
+  | full => exact absurd hk hu.1
+
+/-- C06 (partial, code as written) over histories: as long as every message is a reply or a notification whose entries
+    share one state change, the set of known addresses is the one the announcements demand -/
+theorem c06_history_written : ∀ (h : List Ann) (t : Tree) (a : List Nat), (∀ x ∈ h, x.Uniform) →
+    decide (a ∈ addrs (treeRun {} t h)) = h.foldl (specKnown a) (decide (a ∈ addrs t))
+  | [], _, _, _ => rfl
+  | x :: h, t, a, hu => by
+    unfold treeRun
+    rw [List.foldl_cons, List.foldl_cons]
+    have := c06_history_written h (treeStep {} x.kind x.msg t).1 a (fun y hy => hu y (List.mem_cons_of_mem _ hy))
+    unfold treeRun at this
+    rw [this, written_step_uniform x (hu x (List.mem_cons_self ..)) t a]
 
 end Spine.Disc
